@@ -190,4 +190,31 @@ class Info(lpcommon.LPRelation):
         return 'optimisation lines of the results are not the criteria in position order for %r' % (inp['argv'],)
 
 
-RELATIONS = [Opts(), OptsSpec(), Refuse(), Info()]
+def cost_mix(rng):
+    """criteria lists in which cost criteria with and without extra arguments follow each other"""
+    k = rng.choice([2, 2, 3, 3, 4])
+    pool = ['mincost', 'minsqcost', 'mincostlsb', 'mincost', 'minsqcost', 'maxsize', 'gen', 'gre', 'lsb']
+    out = []
+    while len(out) < k:
+        c = rng.choice(pool)
+        if c not in out:
+            out.append(c)
+    return out
+
+
+class RLpExtras(lpcommon.RLp):
+    """extra arguments stay with their criterion: the problems built for each criterion use its own arguments"""
+    gen_kwargs = dict(crit_names=cost_mix)
+    n_quick = 110
+    describe = (lpcommon.RLp.describe + '; here: 2-4 criteria per run, cost criteria with and without extra arguments '
+                'following each other (in one run and in successive Solver objects of the same process)')
+
+
+class MLexExtras(lpcommon.MLex):
+    gen_kwargs = dict(crit_names=cost_mix)
+    n_quick = 110
+    describe = (lpcommon.MLex.describe + '; here: cost criteria with and without extra arguments following each other: '
+                'each criterion must be optimised with ITS OWN arguments (documented defaults when it has none)')
+
+
+RELATIONS = [Opts(), OptsSpec(), Refuse(), Info(), RLpExtras(), MLexExtras()]
